@@ -678,7 +678,26 @@ def check_C19():
     rep["evaluations"] += repf["evaluations"]
     rep["distinct_nontrivial"] += repf["distinct_nontrivial"]
     rep["violations"] = (rep["violations"] or []) + (repf["violations"] or [])
+    # car get-dag against Traversal.tla: DAGs x selectors x visit-once x incomplete stores x --strict
+    gcfgs = [("Traversal_G3", 1000), ("Traversal_G", 100)] if tier() == "quick" else [("Traversal_G", 1000)]
+    gd_cases = 0
+    for gcfg, gpm in gcfgs:
+        gm = run_tlc("MCTraversal", gcfg + ".cfg", timeout=1200)
+        tlc_must_pass(gm, "Traversal.tla invariants (%s)" % gcfg)
+        gem = run_tlc("MCTraversal", gcfg + "_emit.cfg", timeout=1200)
+        tlc_must_pass(gem, "Traversal.tla emitter (%s)" % gcfg)
+        rcg, repg = harness_run(vh, ["getdag-replay", gem["out"], "@REPORT", car, "seed=%d" % seed(), "permille=%d" % gpm], timeout=3400)
+        rep["evaluations"] += repg["evaluations"]
+        rep["distinct_nontrivial"] += repg["distinct_nontrivial"]
+        rep["violations"] = (rep["violations"] or []) + (repg["violations"] or [])
+        rep["inconclusive"] = (rep.get("inconclusive") or []) + (repg.get("inconclusive") or [])
+        rep["samples"] = (rep["samples"] or []) + (repg["samples"] or [])[:2]
+        gd_cases += repg["evaluations"]
+    rep["counters"]["get_dag_cases"] = gd_cases
     cov = {"evaluations": rep["evaluations"], "distinct_nontrivial": rep["distinct_nontrivial"], "states": model["distinct"], "transitions": model["states"],
+           "get_dag": "car get-dag x {v1, v2} on every DAG over 3 nodes (and a sample / thorough: all of those over 4 nodes) stored in reverse order x {default (visit-once), --selector with explore-all, "
+                      "depth 2, field paths} x store {complete, n3 missing, n2 and n4 missing} x --strict: the output must hold the root and exactly the first occurrences of Traversal.tla's load "
+                      "sequence in order (a lenient walk skips a missing block and everything below it, a strict one fails), and pass car inspect --full and car verify: %d cases" % gd_cases,
            "rule": "(plus car filter / --append with every selection of <= 2 CIDs on archives of <= 4 sections over 3 blocks with repetitions) every archive of <= %d sections over 7 blocks (same multihash/other codec, CIDv0, identity, varint-boundary lengths, duplicates) x 3 root lists x {CARv1, CARv2+mh index, CARv2 padded + sorted "
                    "index, CARv2 padded index-less}: car list, car index x {both codecs, none} x {v1,v2}, car index create x 2 codecs, car detach-index, car get-block for 7 CIDs, car concat (v1 and the "
                    "known-broken v2), car get-dag x {v1,v2}, and a seeded %d permille sample of car filter x {<= 2 selected CIDs, inverse, v1/v2} and filter --append; outputs are compared byte-for-byte with "
